@@ -8,17 +8,19 @@ import (
 	"github.com/PowerDNS/lightningstream/lmdbenv/header"
 
 	"verif/hdr"
+	"verif/props/mergep"
 	"verif/rng"
 	"verif/runner"
 )
 
 type c14Params struct {
-	Part  string     `json:"part"` // counts | diff | putbasic | merge
-	From  int        `json:"from,omitempty"`
-	To    int        `json:"to,omitempty"`
-	Seed  uint64     `json:"seed,omitempty"`
-	Count int        `json:"count,omitempty"`
-	C02   *c02Params `json:"c02,omitempty"`
+	Part  string       `json:"part"` // counts | diff | putbasic | merge
+	From  int          `json:"from,omitempty"`
+	To    int          `json:"to,omitempty"`
+	Seed  uint64       `json:"seed,omitempty"`
+	Count int          `json:"count,omitempty"`
+	C02   *c02Params   `json:"c02,omitempty"`
+	Hist  *mergep.Hist `json:"hist,omitempty"`
 }
 
 func C14() *runner.Property {
@@ -27,6 +29,7 @@ func C14() *runner.Property {
 		Level: "exploration",
 		Rule: "(1) all extension counts 0..65535 (exhaustive) x random timestamp/txn id/flag byte/value: Header.Bytes() is read back by header.Parse/Skip and by an independent reader of the documented layout, fields and application value must be exact; " +
 			"(2) differential Parse/Skip vs the independent reader on random and near-valid byte strings (lengths 0-60+, version byte != 0, counts exceeding the length by one block): same accept/reject, same split; (3) PutBasic on a 0xFF-filled buffer; " +
+			"(5) write monitor on direct-driven real instances (see C01): every value a real LoadOnce changed in a native or shadow DBI is read by the independent reader and must carry the id of that LMDB transaction and the configured number of padding blocks; " +
 			"(4) every value the real merge routine writes over the C02 domain, with stored values carrying 1-3 extension blocks written by others and header padding on/off, is checked by the independent reader (version 0, reserved 0, flags within the synced set, " +
 			"transaction id of the writing transaction, extension count, deleted => empty value), and keep/replace decisions must not depend on the blocks. Non-trivial = distinct header images / distinct configurations.",
 		Assumptions: []string{"the independent reader hdr.Read is written from docs/schema-native.md"},
@@ -57,6 +60,17 @@ func C14() *runner.Property {
 					continue
 				}
 				cs = append(cs, runner.MkCase("merge-"+c.Family, c.ID, c14Params{Part: "merge", C02: &p}))
+			}
+			nh := 60
+			if tier == "thorough" {
+				nh = 1200
+			}
+			for i, c := range mergep.HistCases(tier, seed, 0xC14D, nh) {
+				var h mergep.Hist
+				runner.Params(c, &h)
+				h.Padding = i%2 == 0
+				h.EmptyVals = false
+				cs = append(cs, runner.MkCase("drive-writes", c.ID, c14Params{Part: "drive", Hist: &h}))
 			}
 			return cs
 		},
@@ -208,6 +222,11 @@ func runC14(c runner.Case, env *runner.Env) (res runner.Result) {
 		}
 		res.NonTrivial = true
 		res.Sample = map[string]any{"case": c.ID, "images": p.Count}
+	case "drive":
+		mergep.RunHist(*p.Hist, env, &res, "C14")
+		res.NonTrivial = res.Obs["written_values_checked"] > 0
+		res.Key = c.ID
+		return
 	case "merge":
 		r2 := runC02(runner.Case{ID: c.ID, Family: c.Family, P: mustJSON(p.C02)}, env)
 		r2.Key = c.ID
